@@ -36,6 +36,7 @@ type c17Case struct {
 	Method      string
 	ExtraHdr    string
 	Early       int // 0 none; 1: 103 Early Hints before the handler sets its headers; 2: after
+	HeadSilent  bool // the handler writes no body for a HEAD request (what a reverse proxy does)
 }
 
 func (cs *c17Case) body() []byte {
@@ -102,6 +103,7 @@ func genC17(r *rand.Rand, id int) *c17Case {
 		"gzip;q=0", "identity, gzip;q=0", "gzip; q=0.0, identity;q=1", "gzip;q=0.5, br;q=1", "deflate, gzip ; q=0"})
 	cs.Accept = choose(r, []string{"", "*/*", "text/html", "text/event-stream", "application/json, text/event-stream"})
 	cs.Method = choose(r, []string{"GET", "GET", "GET", "POST", "HEAD"})
+	cs.HeadSilent = r.Intn(3) > 0
 	if r.Intn(3) == 0 {
 		cs.ExtraHdr = fmt.Sprintf("v%d", r.Intn(1000))
 	}
@@ -158,6 +160,12 @@ func c17Gzip(c *ctx) {
 		}
 		if cs.ExplicitWH {
 			w.WriteHeader(cs.Status)
+		}
+		if r.Method == "HEAD" && cs.HeadSilent {
+			if !cs.ExplicitWH {
+				w.WriteHeader(cs.Status)
+			}
+			return
 		}
 		off := 0
 		for _, sz := range cs.Chunks {
@@ -253,6 +261,12 @@ func c17Gzip(c *ctx) {
 				c.R.Eval(1)
 				w, err1 := fetch(wrappedURL, cs)
 				ref, err2 := fetch(refURL, cs)
+				var twin *c17Resp // HEAD: what a GET for the same resource delivers through the wrapper
+				if cs.Method == "HEAD" {
+					g := *cs
+					g.Method = "GET"
+					twin, _ = fetch(wrappedURL, &g)
+				}
 				cases.Delete(cs.ID)
 				in := map[string]any{"Case": cs}
 				if err2 != nil {
@@ -289,8 +303,18 @@ func c17Gzip(c *ctx) {
 						c.R.Violate("c17:compressed-nonmatching-type", fmt.Sprintf("content type %q does not match the configured expression but the response is gzip encoded", ct), in)
 						continue
 					}
+					if ref.Status == 204 || ref.Status == 304 {
+						// a status without a body: nothing was compressed, the label (and a removed Content-Length) is a change
+						c.R.Violate("c17:bodiless-status-labelled-gzip", fmt.Sprintf("upstream status %d has no body; the response is labelled Content-Encoding: gzip although its (empty) body is no gzip stream", ref.Status), in)
+						continue
+					}
 					if bodiless {
-						continue // no body to compare
+						// HEAD: no body to compare; a Content-Length, if announced, is the one of the GET response
+						if twin != nil && twin.ReadErr == "" && w.CLen >= 0 && (twin.CLen >= 0 && twin.CLen != w.CLen || twin.CLen < 0 && int64(len(twin.Body)) != w.CLen) {
+							c.R.Violate("c17:head-invented-content-length", fmt.Sprintf("HEAD response labelled gzip announces Content-Length %d; the GET for the same resource delivers %d bytes (its Content-Length: %d), the upstream's HEAD response says %d", w.CLen, len(twin.Body), twin.CLen, ref.CLen), in)
+						}
+						c.R.Count("head_responses_labelled_gzip", 1)
+						continue
 					}
 					if w.ReadErr != "" {
 						c.R.Violate("c17:stale-content-length", fmt.Sprintf("reading the compressed body failed: %s (Content-Length %d, %d bytes read)", w.ReadErr, w.CLen, len(w.Body)), in)
